@@ -130,15 +130,24 @@ def optimized_interpreter(ctx, L, cases):
             inp.append({"type": c.type, "hex": faults.patch(L, c, fm).hex(), "cc": c.cc, "enc": bool(c.enc), "faulted": True})
     if not inp:
         return
-    p = subprocess.run([sys.executable, "-O", "-c", OPT_HELPER, O.SRC], input=json.dumps(inp), capture_output=True, text=True, timeout=900)
-    if p.returncode != 0:
-        raise HarnessError(f"python -O helper failed: {p.stderr[-800:]}")
-    res = json.loads(p.stdout.strip().splitlines()[-1])
+    import os
+
+    # other interpreter settings the library must not depend on: assertions compiled away (-O), other string-hash seeds
+    for flags, hashseed, label in ((["-O"], "0", "python -O"), ([], "1", "PYTHONHASHSEED=1"), (["-O"], "4242", "python -O PYTHONHASHSEED=4242")):
+        p = subprocess.run([sys.executable] + flags + ["-c", OPT_HELPER, O.SRC], input=json.dumps(inp), capture_output=True, text=True, timeout=900, env=dict(os.environ, PYTHONHASHSEED=hashseed))
+        if p.returncode != 0:
+            raise HarnessError(f"{label} helper failed: {p.stderr[-800:]}")
+        res = json.loads(p.stdout.strip().splitlines()[-1])
+        if not _compare_interpreter(ctx, L, inp, res, label):
+            return
+
+
+def _compare_interpreter(ctx, L, inp, res, label):
     for c, r in zip(inp, res):
         data = bytes.fromhex(c["hex"])
-        ctx.case(("-O", c["type"], c["hex"]), True, sample={"interpreter": "python -O", **c} if len(c["hex"]) < 80 else None)
-        ctx.count("python -O decodes")
-        payload = {"type": c["type"], "data": data, "cc": c["cc"], "enc": c["enc"], "interpreter": "-O"}
+        ctx.case(("-O", c["type"], c["hex"]), True, sample={"interpreter": label, **c} if len(c["hex"]) < 80 else None)
+        ctx.count(f"decodes under {label}")
+        payload = {"type": c["type"], "data": data, "cc": c["cc"], "enc": c["enc"], "interpreter": label}
         for mode, strict in (("strict", True), ("warn", False)):
             O.reset_state()
             here = O.run_decode(c["type"], data, command_code=c["cc"], enc=c["enc"], strict=strict)
@@ -149,14 +158,15 @@ def optimized_interpreter(ctx, L, cases):
                 d = next((i for i, (x, y) in enumerate(zip(got["shape"], shape)) if x != y), min(len(got["shape"]), len(shape)))
                 ctx.problem(
                     f"C02:optimized-interpreter:{mode}",
-                    f"under `python -O` the {mode} decode of {c['hex'][:200]} as {c['type']} differs: event {d} is {got['shape'][d] if d < len(got['shape']) else None} "
+                    f"under `{label}` the {mode} decode of {c['hex'][:200]} as {c['type']} differs: event {d} is {got['shape'][d] if d < len(got['shape']) else None} "
                     f"(normally {shape[d] if d < len(shape) else None}), {len(got['shape'])} vs {len(shape)} events, end {got['end']} vs {here.outcome['kind']}",
                     payload,
                 )
-                return
+                return False
             if end == "ok" and all(x[1]["kind"] == "value" for x in here.warnings) and got["hex"] != c["hex"]:
-                ctx.problem(f"C02:optimized-interpreter:{mode}", f"under `python -O` re-encoding the {mode} decode of {c['hex'][:200]} as {c['type']} gives {got['hex'][:200]}", payload)
-                return
+                ctx.problem(f"C02:optimized-interpreter:{mode}", f"under `{label}` re-encoding the {mode} decode of {c['hex'][:200]} as {c['type']} gives {got['hex'][:200]}", payload)
+                return False
+    return True
 
 
 def run_shard(ctx):
